@@ -290,6 +290,8 @@ class SList:
                         return z3.BoolVal(False)
                     if t is None or isinstance(t, TInt):
                         return z3.IntVal(0)
+                    if isinstance(t, TList):
+                        return SList.of([], t.elem)
                     raise Unsupported('index into empty list of %r' % (t,))
                 return dummy(elem)
             if not all(is_scalar(x) for x in items):
